@@ -93,3 +93,36 @@ func init() {
 		c.Cov["explanation"] = "debug"
 	}})
 }
+
+// dbg02: replay one C02 fault schedule (DBG_REPLAY=<file>) and print the trace.
+func init() {
+	core.Register(&core.Check{ID: "dbg02", Level: "other", Run: func(c *core.Ctx) {
+		b, err := os.ReadFile(os.Getenv("DBG_REPLAY"))
+		if err != nil {
+			panic(err)
+		}
+		var f struct {
+			Replay struct {
+				Cfg     c02Cfg `json:"cfg"`
+				Choices []int  `json:"choices"`
+			} `json:"replay"`
+		}
+		if err := json.Unmarshal(b, &f); err != nil {
+			panic(err)
+		}
+		c02Trace = true
+		r := c02Execute(f.Replay.Cfg, f.Replay.Choices)
+		for _, l := range r.cl.Log {
+			fmt.Println("  log:", l)
+		}
+		for _, p := range r.points {
+			if p.Ch != 0 {
+				fmt.Println("fault:", p.Desc)
+			}
+		}
+		for _, o := range r.out {
+			fmt.Println("FAIL", o.Key, "::", o.What)
+		}
+		c.Cov["explanation"] = "debug"
+	}})
+}
